@@ -1238,7 +1238,13 @@ func (ctx *Context) evaluate() {
 				name, _ := stName.ReadString()
 				if stInfo.Op == "-" {
 					// 负号取正，以免-和-=出现符号一正一反的情况
-					stVal = stVal.OpNegation()
+					neg := stVal.OpNegation()
+					if neg == nil {
+						// 值不是数字(如 x-1?'a':'b' 的结果是字符串)时无法取反，与一元负号的类型错误一致
+						ctx.Error = fmt.Errorf("此类型无法使用一元算符 neg: %s", stVal.GetTypeName())
+						return
+					}
+					stVal = neg
 				}
 				e.Config.CallbackSt("mod", name, stVal.Clone(), nil, stInfo.Op, stInfo.Text)
 			}
